@@ -516,9 +516,8 @@ class BaseGrammar(
         if current_name in self._required_names:
             self._required_names.remove(current_name)
             self._required_names.add(new_name)
-        default_value = self._defaults.pop(current_name, None)
-        if default_value is not None:
-            self._defaults[new_name] = default_value
+        if current_name in self._defaults:
+            self._defaults[new_name] = self._defaults.pop(current_name)
 
     @abstractmethod
     def _rename_element(self, current_name: str, new_name: str) -> None:
